@@ -96,8 +96,8 @@ let parse_stmt (toks : string list) : M.stmt =
 
 let show_loc (l, c) = Printf.sprintf "%d:%d" (int_of_n l) (int_of_n c)
 
-let run_case (id : string) (files : (M.n list * M.n list) list) (stmts : M.stmt list) (verbose : bool) : unit =
-  match M.run files stmts with
+let print_result (id : string) (verbose : bool) (r : M.run_result) : unit =
+  match r with
   | M.RunOk (pcap, warnings, trace) ->
     Printf.printf "CASE %s OK %s W %s%s\n" id (hex_of_bytes pcap)
       (match warnings with [] -> "-" | _ -> String.concat "," (List.map show_loc warnings))
@@ -107,22 +107,29 @@ let run_case (id : string) (files : (M.n list * M.n list) list) (stmts : M.stmt 
       (if verbose then " P " ^ hex_of_bytes partial else "")
   | M.RunPanic site -> Printf.printf "CASE %s PANIC %s\n" id (ostring site)
 
+let run_case (id : string) (files : (M.n list * M.n list) list) (stmts : M.stmt list) (verbose : bool) : unit =
+  print_result id verbose (M.run files stmts)
+
 let main (args : string list) : unit =
   let verbose = List.mem "-v" args in
   let ic = match List.filter (fun a -> a <> "-v") args with
     | [f] -> open_in f | _ -> stdin in
-  let id = ref "" and files = ref [] and stmts = ref [] in
+  let id = ref "" and files = ref [] and stmts = ref [] and src = ref None in
   (try
     while true do
       let line = input_line ic in
       match split_ws line with
       | [] -> ()
-      | "CASE" :: i :: _ -> id := i; files := []; stmts := []
+      | "CASE" :: i :: _ -> id := i; files := []; stmts := []; src := None
+      | "SRC" :: h :: _ -> src := Some (bytes_of_hex h)
       | "FILE" :: p :: c :: _ -> files := (bytes_of_hex p, bytes_of_hex c) :: !files
       | "S" :: rest ->
         (try stmts := parse_stmt rest :: !stmts
          with Parse m -> Printf.printf "CASE %s BADINPUT %s\n" !id m)
-      | "END" :: _ -> run_case !id (List.rev !files) (List.rev !stmts) verbose
+      | "END" :: _ ->
+        (match !src with
+         | Some b -> print_result !id verbose (M.run_src (List.rev !files) b)
+         | None -> run_case !id (List.rev !files) (List.rev !stmts) verbose)
       | _ -> Printf.printf "CASE %s BADLINE\n" !id
     done
   with End_of_file -> ());
